@@ -166,14 +166,18 @@ def main():
     report = {}
     for area, items in areas.items():
         out, misses, changed = [], [], []
+        area_failed = None
         for name, f in items:
             key = f"{area}.{name}"
             try:
                 txt = f(a.repo)
             except Miss as e:
                 if key not in defaults:
+                    # no committed default (an item still under construction): this area alone fails,
+                    # its Consts file is left as it was, and the property check reports it
                     print(f"translator: item {key} missing and no default: {e}", file=sys.stderr)
-                    sys.exit(2)
+                    area_failed = f"{key}: {e}"
+                    break
                 misses.append({"item": key, "why": str(e)})
                 txt = defaults[key]
             if defaults.get(key) != txt:
@@ -181,6 +185,10 @@ def main():
             if a.update_defaults:
                 defaults[key] = txt
             out.append(f"(* item: {name} *)\n{txt}\n")
+        if area_failed:
+            report[area] = {"items": len(items), "translator_miss": misses, "failed": area_failed,
+                            "differs_from_committed_default": changed, "rewrote": False}
+            continue
         text = ("(* GENERATED by translator/gen_consts.py from the /repo working tree - do not edit *)\n"
                 "From Coq Require Import List NArith ZArith.\nImport ListNotations.\nOpen Scope N_scope.\n\n"
                 + "\n".join(out))
